@@ -613,6 +613,21 @@ func (c *Client) delete(id transactionID) {
 	c.mux.Unlock()
 }
 
+// release unregisters transaction t if it is still the one registered for id
+// and reports whether it was. Only the caller that gets true may complete and
+// recycle t; on false another event has already taken it.
+func (c *Client) release(id transactionID, t *clientTransaction) bool {
+	c.mux.Lock()
+	defer c.mux.Unlock()
+	if current, ok := c.t[id]; ok && current == t {
+		delete(c.t, id)
+
+		return true
+	}
+
+	return false
+}
+
 type buffer struct {
 	buf []byte
 }
@@ -657,16 +672,21 @@ func (c *Client) handleAgentCallback(event Event) { //nolint:cyclop
 	)
 	// Starting client transaction.
 	if startErr := c.start(transaction); startErr != nil {
-		c.delete(id)
+		// Not registered again, so the transaction is still exclusively ours;
+		// the table entry for id (if any) belongs to somebody else.
 		event.Error = startErr
 		transaction.handle(event)
 		putClientTransaction(transaction)
 
 		return
 	}
+	// From here on the transaction is registered again and can be completed
+	// (and recycled) concurrently by a response, a timeout or Close.
 	// Starting agent transaction.
 	if startErr := c.a.Start(id, timeOut); startErr != nil {
-		c.delete(id)
+		if !c.release(id, transaction) {
+			return
+		}
 		event.Error = startErr
 		transaction.handle(event)
 		putClientTransaction(transaction)
@@ -676,7 +696,11 @@ func (c *Client) handleAgentCallback(event Event) { //nolint:cyclop
 	// Writing message to connection again.
 	_, writeErr := c.c.Write(buff.buf)
 	if writeErr != nil {
-		c.delete(id)
+		if !c.release(id, transaction) {
+			// Completed concurrently while the write was in progress: the
+			// transaction is not ours anymore, its handler has been called.
+			return
+		}
 		event.Error = writeErr
 		// Stopping agent transaction instead of waiting until it's deadline.
 		// This will call handleAgentCallback with "ErrTransactionStopped" error
